@@ -743,4 +743,135 @@ example : Attr.toOwned true (.typed 0x40 2 [2, 3, 0, 0, 0, 1]) = .err := by deci
 /-- and a message is rejected, not panicked on, when a length field lies -/
 example : (parseUpdate ⟨true, []⟩ (List.replicate 16 0xff ++ [0, 25, 2, 0, 9, 0, 0, 8, 10])).isOk = false := by decide
 
+/-! ### iteration of a returned `AsPath` is bounded by its octets -/
+
+private theorem dec32_len : ∀ (bs : Bytes), 4 * (AsPath.dec32 bs).length ≤ bs.length
+  | [] => by simp [AsPath.dec32]
+  | [_] => by simp [AsPath.dec32]
+  | [_, _] => by simp [AsPath.dec32]
+  | [_, _, _] => by simp [AsPath.dec32]
+  | _ :: _ :: _ :: _ :: r => by
+    have := dec32_len r
+    simp only [AsPath.dec32, List.length_cons]; omega
+
+private theorem dec16_len : ∀ (bs : Bytes), 2 * (AsPath.dec16 bs).length ≤ bs.length
+  | [] => by simp [AsPath.dec16]
+  | [_] => by simp [AsPath.dec16]
+  | _ :: _ :: r => by
+    have := dec16_len r
+    simp only [AsPath.dec16, List.length_cons]; omega
+
+private theorem decAsns_len (four : Bool) (bs : Bytes) : 2 * (AsPath.decAsns four bs).length ≤ bs.length := by
+  cases four
+  · simpa [AsPath.decAsns] using dec16_len bs
+  · have := dec32_len bs
+    simp only [AsPath.decAsns, ↓reduceIte]; omega
+
+private theorem hopsOfSeg_len (s : AsPath.Seg) : (AsPath.hopsOfSeg s).length ≤ 1 + s.asns.length := by
+  unfold AsPath.hopsOfSeg
+  split <;> simp
+
+private theorem segmentsF_bounds (four : Bool) : ∀ (f : Nat) (bs : Bytes) (ss : List AsPath.Seg),
+    AsPath.segmentsF four f bs = .ok ss →
+      2 * ss.length + 2 * (ss.map fun sg => sg.asns.length).sum ≤ bs.length ∧
+        2 * (AsPath.hopsOfSegs ss).length ≤ bs.length := by
+  intro f
+  induction f with
+  | zero =>
+    intro bs ss h
+    simp only [AsPath.segmentsF] at h
+    split at h
+    · simp only [Outcome.ok.injEq] at h; subst h; simp [AsPath.hopsOfSegs]
+    · cases h
+  | succ f ih =>
+    intro bs ss h
+    match bs, h with
+    | [], h => simp only [AsPath.segmentsF, Outcome.ok.injEq] at h; subst h; simp [AsPath.hopsOfSegs]
+    | [t], h =>
+      simp only [AsPath.segmentsF] at h
+      split at h <;> cases h
+    | t :: n :: bs, h =>
+      simp only [AsPath.segmentsF] at h
+      split at h
+      · cases h
+      · cases ht : takeN (n.toNat * AsPath.asnSize four) bs with
+        | none => simp [ht] at h
+        | some p =>
+          obtain ⟨v, r⟩ := p
+          simp only [ht] at h
+          cases hr : AsPath.segmentsF four f r with
+          | ok ss' =>
+            simp only [hr, Outcome.ok.injEq] at h
+            subst h
+            obtain ⟨i1, i2⟩ := ih r ss' hr
+            obtain ⟨_, hb⟩ := takeN_length ht
+            have hv := decAsns_len four v
+            have hh := hopsOfSeg_len ⟨t.toNat, four, AsPath.decAsns four v⟩
+            have hl : bs.length = v.length + r.length := by rw [hb]; simp
+            simp only [AsPath.hopsOfSegs, List.flatMap_cons, List.length_append, List.length_cons, List.map_cons,
+              List.sum_cons] at i2 hh ⊢
+            constructor <;> omega
+          | err => simp [hr] at h
+          | panic => simp [hr] at h
+
+/-- **hops_bounded.** Clause "every iterator terminates", for the iterators of a
+RETURNED value: whatever octets an `AsPath` holds and whatever its ASN width,
+when `segments()` / `hops()` come to an end without a panic they have yielded at
+most `len / 2` segments whose `asns()` yield at most `len / 2` AS numbers in all,
+and at most `len / 2` hops (`len` = the number of value octets): no AS path
+value makes these iterators run longer than its own length.  (That they do not
+panic on a value `aspath()` / `as4path()` / `to_owned()` returns is
+`accessors_total`.)  The harness drives the three iterators of every returned
+path to their ends and compares the three counts with the model's (group `pit`). -/
+theorem hops_bounded (four : Bool) (v : Bytes) :
+    (∀ ss, AsPath.segments four v = .ok ss →
+      2 * ss.length + 2 * (ss.map fun sg => sg.asns.length).sum ≤ v.length) ∧
+    (∀ h, AsPath.hops four v = .ok h → 2 * h.length ≤ v.length) := by
+  constructor
+  · intro ss hs
+    exact (segmentsF_bounds four _ v ss hs).1
+  · intro h hh
+    unfold AsPath.hops at hh
+    cases hs : AsPath.segments four v with
+    | ok ss =>
+      simp only [hs, Outcome.ok.injEq] at hh
+      subst hh
+      exact (segmentsF_bounds four _ v ss hs).2
+    | err => simp [hs] at hh
+    | panic => simp [hs] at hh
+
+/-- ... in particular for the paths the accessors of an accepted message return:
+`aspath()` (session width) and `as4path()` (four octets) -/
+theorem returned_path_bounded (m : Msg) (v : Bytes) (h : AsPath.HopPath) :
+    (m.aspath = .ok (some (v, h)) → 2 * h.length ≤ v.length) ∧
+    (m.as4path = .ok (some (v, h)) → 2 * h.length ≤ v.length) := by
+  have key : ∀ four (w : Bytes), mapO some (asPathOf four w) = .ok (some (v, h)) → 2 * h.length ≤ v.length := by
+    intro four w hw
+    unfold asPathOf at hw
+    split at hw
+    · cases hh : AsPath.hops four w with
+      | ok x =>
+        simp only [hh, mapO, Outcome.ok.injEq, Option.some.injEq, Prod.mk.injEq] at hw
+        obtain ⟨rfl, rfl⟩ := hw
+        exact (hops_bounded four w).2 x hh
+      | err => simp [hh, mapO] at hw
+      | panic => simp [hh, mapO] at hw
+    · simp [mapO] at hw
+  constructor
+  · intro hm
+    unfold Msg.aspath at hm
+    split at hm
+    · exact key _ _ hm
+    · simp at hm
+  · intro hm
+    unfold Msg.as4path at hm
+    split at hm
+    · exact key _ _ hm
+    · simp at hm
+
+/-- non-vacuity: 300 empty AS_SET segments in 600 octets are 300 hops – the bound is reached -/
+example : (match AsPath.hops true ((List.replicate 300 [1, 0]).flatten) with
+    | .ok h => some h.length | _ => none) = some 300 := by decide +kernel
+
+
 end Rc.Thm.C02
